@@ -12,7 +12,10 @@ HEAD=$(git rev-parse --short HEAD)
 run_demo() { # $1 = seeded dir ; prints exit status of the demonstration
   local d=$1
   rm -rf $WT/out $WT/tests/demo_test.rs
-  if [ -f $d/run_demo.sh ]; then
+  if [ -f $d/run_demo.sh ] && grep -q 'DEMO=\$1' $d/run_demo.sh; then
+    # runner that lives one level up and takes the demonstration as its argument
+    mkdir -p $WT/out/m && cp -r $d/* $WT/out/m/ && cp $d/run_demo.sh $WT/out/run_demo.sh && (cd $WT && timeout 600 bash out/run_demo.sh out/m/demo.py >/tmp/confirm_demo.log 2>&1); echo $?
+  elif [ -f $d/run_demo.sh ]; then
     mkdir -p $WT/out/m && cp -r $d/* $WT/out/m/ && (cd $WT/out/m && timeout 600 bash ./run_demo.sh >/tmp/confirm_demo.log 2>&1); echo $?
   elif [ -f $d/demo_test.rs ]; then
     cp $d/demo_test.rs $WT/tests/demo_test.rs && (cd $WT && timeout 900 cargo test --offline --test demo_test >/tmp/confirm_demo.log 2>&1); echo $?
